@@ -6,7 +6,9 @@ PROP = dict(
               "C10_mutex_needs_protocol", "C10_demote_only_from_submitter_host", "C10_stale_rejected", "C10_stale_jobstatus_rejected",
               "C10_prepareResubmit_stale_partial", "C10_prepareResubmit_jsStale_writes_config",
               "C10_protocol_never_stale", "C10_versions_monotone", "C10_versions_agree_after_any_history",
-              "C10_version_file_never_behind", "C10_torn_write_detectable", "C10_older_copy_rejected_after_crashes"],
+              "C10_version_file_never_behind", "C10_torn_write_detectable", "C10_older_copy_rejected_after_crashes",
+              "C10_torn_extension_conservative", "C10_empty_version_file_fails_closed", "C10_empty_version_file_stays_closed",
+              "C10_empty_version_file_no_mismatch"],
     suites=["cluster"],
     level_text="Machine-checked Lean theorems over a model of jade/jobs/cluster.py with any number of handles on any hosts, for "
                "ALL sequences of public API calls (induction over the operation list; invariants RoleInv / Coherent): promotion "
@@ -17,7 +19,10 @@ PROP = dict(
                "lock hold (Model/ClusterCrash.lean; the write order version-file-first is regenerated from the statement order of "
                "_serialize/_serialize_jobs): after any history of API calls and kills no version file is behind the contents, a torn "
                "write that put new contents on disk makes every surviving handle fail the version compare, and a copy older than the "
-               "contents is rejected. Every decision (has_submitter, am_i_submitter, the version compares, the two "
+               "contents is rejected; and over the alphabet further extended by kills INSIDE a file write (TSys/TOp/stepT: a version "
+               "file, written by truncate-then-write, is left EMPTY; conservative over the previous alphabet): in ANY state, while a "
+               "version file is empty no API call and no kill changes that (data file, version file) pair - the code fails closed "
+               "(int('') raises in every reader) until the file is rewritten by hand. Every decision (has_submitter, am_i_submitter, the version compares, the two "
                "changed-tests incl. which remembered hash each compares against, the asserts and counter updates of "
                "_update_job_status, …) is regenerated from the source on each run; the statement order is tied by differential "
                "testing of REAL Cluster objects on real files (result enum and parsed content of the four files, backups and "
@@ -25,8 +30,15 @@ PROP = dict(
     level_note="Trusted: Lean kernel (+propext, Classical.choice, Quot.sound), tools/extract.py, the cluster correspondence suite "
                "(SoftFileLock replaced by a non-blocking marker lock; socket.gethostname patched per handle). Python str hashes "
                "are treated as injective (a hash is modelled by the value hashed). Mutual exclusion of the lock itself "
-               "(SoftFileLock/O_EXCL on the shared filesystem) is outside this model; kills strike between file writes, with "
-               "_serialize_file (rename to .bk, write, remove .bk) taken as ONE write (a kill inside it is the system model's / C11's). Known API-level deviation, proved as a witness theorem and not reachable from any CLI "
+               "(SoftFileLock/O_EXCL on the shared filesystem) is outside this model; kills strike between file writes or inside the write of a "
+               "version file (open(f,'w') + write(): the file is left empty; a partially written number is not modelled - the "
+               "text is a few bytes written by one write() call), with "
+               "_serialize_file (rename to .bk, write, remove .bk) taken as ONE write (a kill inside it is the system model's / C11's; "
+               "a crash op with torn=true at a data-file write degenerates to the kill right before that write). The reads "
+               "_get_config_version/_get_job_status_version are NOT translator sites: their behaviour on an empty file "
+               "(ValueError for every reader) is tied by the cluster correspondence suite (result enum + files after every op of "
+               "histories with torn kills, ~40 torn files per quick run) and stated directly by the content-based oracle "
+               "stale.overwrote_newer_config / stale.overwrote_newer_jobstatus. Known API-level deviation, proved as a witness theorem and not reachable from any CLI "
                "flow: prepare_for_resubmission by a handle whose job-status copy (only) is out of date rewrites the config "
                "before raising JobStatusVersionMismatch.",
     assumptions=["no hash collisions between distinct JSON texts", "the cluster lock serialises lock sections (trusted, DESIGN 8)",
